@@ -16,6 +16,7 @@
 //! long as it is still marked Candidate in the model; retry/commit decisions, snapshot lengths and commit
 //! indices are compared exactly.
 
+use std::collections::{BTreeMap, BTreeSet};
 use std::sync::{Arc, Condvar, Mutex};
 use std::time::{Duration, Instant};
 
@@ -656,6 +657,56 @@ fn enum_cases(s: &mut Sink, r: &mut Rng, count: usize) {
     }
 }
 
+/// sustained contention on ONE row: a light row C holds a unit in every column z_k and conflicts pairwise (2-cycle [[2,1],[1,2]]) with
+/// each of M rows R_k that other workers keep committing, so C has to re-validate again and again; whatever the schedule, the
+/// returned set must be an acyclic set of ±1 entries in distinct rows / columns and the call must not panic. Oracle-only (the
+/// traces are too long for the replay); real threads, no imposed schedule.
+fn retry_chain_case(s: &mut Sink, m: usize, threads: usize, round: usize) {
+    let (ncols, nrows) = (2 * m + 2, m + 2);
+    let (c, z) = (|k: usize| 2 + k, |k: usize| 2 + m + k);
+    let (row_c, row_p) = (0usize, m + 1);
+    let first_preferred = (m + 1) / 2 + 8;
+    let w_big = (4 * m) as i64;
+    let mut e: Vec<(usize, usize, i64)> = vec![(row_p, 0, 1), (row_p, 1, 2), (row_c, 1, 2)];
+    for k in 0..m {
+        e.push((row_p, c(k), 2)); e.push((row_p, z(k), if k >= first_preferred { 2 } else { 3 }));
+        e.push((row_c, c(k), 2)); e.push((row_c, z(k), 1));
+        e.push((1 + k, 1, w_big)); e.push((1 + k, c(k), 1)); e.push((1 + k, z(k), 2));
+    }
+    let a: SpMat<i64> = SpMat::from_entries((nrows, ncols), e.clone());
+    let desc = format!("retry chain: M={} ({}x{} over Z: cover row P, light row C with a unit in every z_k, rows R_k = [W at h, 1 at c_k, 2 at z_k]) Rows/One threads={} round={}", m, nrows, ncols, threads, round);
+    let pool = rayon::ThreadPoolBuilder::new().num_threads(threads).build().unwrap();
+    let a2 = a.clone();
+    let res = guard_timeout(120, move || pool.install(|| yui_matrix::sparse::pivot::find_pivots(&a2, PivotType::Rows, PivotCondition::One)));
+    match res {
+        None => s.oracle(false, "the call never deadlocks", &desc, "timeout"),
+        Some(None) => s.oracle(false, "find_pivots never panics (the pivot set it assembled must be acyclic)", &desc, "panic"),
+        Some(Some(pivs)) => {
+            let rows: BTreeSet<usize> = pivs.iter().map(|p| p.0).collect();
+            let cols: BTreeSet<usize> = pivs.iter().map(|p| p.1).collect();
+            let val: BTreeMap<(usize, usize), i64> = e.iter().map(|&(i, j, x)| ((i, j), x)).collect();
+            let units = pivs.iter().all(|p| matches!(val.get(p), Some(1) | Some(-1)));
+            // acyclic: order the pivots so that the block is upper triangular = no pivot row has an entry in the pivot column of a LATER pivot … check by Kahn on the dependency graph
+            let idx: BTreeMap<usize, usize> = pivs.iter().enumerate().map(|(k, p)| (p.1, k)).collect();   // pivot column -> pivot number
+            let mut indeg = vec![0usize; pivs.len()];
+            let mut out: Vec<Vec<usize>> = vec![vec![]; pivs.len()];
+            let mut by_row: Vec<Vec<(usize, i64)>> = vec![vec![]; nrows];
+            for &(i, j, x) in e.iter() { by_row[i].push((j, x)); }
+            for (k, p) in pivs.iter().enumerate() {
+                for &(j, x) in by_row[p.0].iter() { if x != 0 && j != p.1 { if let Some(&l) = idx.get(&j) { out[k].push(l); indeg[l] += 1; } } }
+            }
+            let mut stack: Vec<usize> = (0..pivs.len()).filter(|&k| indeg[k] == 0).collect();
+            let mut seen = 0;
+            while let Some(k) = stack.pop() { seen += 1; for &l in &out[k] { indeg[l] -= 1; if indeg[l] == 0 { stack.push(l); } } }
+            let ok = rows.len() == pivs.len() && cols.len() == pivs.len() && units && seen == pivs.len();
+            s.oracle(ok, "the returned pivots lie in distinct rows and columns, are ±1 entries, and their dependency graph is acyclic (a triangular leading block exists)", &desc,
+                &format!("pivots={} distinct_rows={} distinct_cols={} units={} topologically_sorted={}", pivs.len(), rows.len(), cols.len(), units, seen));
+        }
+    }
+    s.eval_only(&desc, true);
+    s.count("retry-chain");
+}
+
 fn main() {
     let args = Args::parse();
     quiet_panics();
@@ -683,6 +734,7 @@ fn main() {
     race_cases::<FF<3>>(&mut s, &mut pools, &mut r, if thorough { 2000 } else { 50 });
 
     enum_cases(&mut s, &mut r, if thorough { 1500 } else { 40 });
+    for round in 0..(if thorough { 3 } else { 1 }) { for (m, t) in [(3000usize, 2usize), (4000, 3), (6000, 4), (10000, 8), (16000, 16)] { retry_chain_case(&mut s, m, t, round); } }
 
     s.finish();
 }
